@@ -92,7 +92,7 @@ def check(tree, rep, tier='quick', seed=0):
                     bad.append(data)
         # names with a computed part over a fixed block (dependent_{n}_ctc) are indices into the 1040's own rows, not copies of a form
         bad = [b for b in bad if 'dependent_{' not in b]
-        rep.ob('R16.1', f'{d.key}', not bad, f'{d.key} is not invariant under renumbering the copies of a form: {bad[:2]}', d.where)
+        rep.ob('R16.1', f'{d.key}', not bad, f'{d.key} is not invariant under renumbering the copies of a form, or does not count every copy once: {bad[:2]}', d.where)
         # ---- R16.2 fixed positions only in listing lines
         fixed = sorted({r.text for r in d.reads() if r.res is not None and r.res.form is not None and isinstance(r.res.instance, str) and r.res.instance.isdigit()
                         and not r.res.form.class_attrs.get('valid_instances')})
